@@ -1,7 +1,7 @@
 (* Entry.v — single extracted entry point [run]: request = VList [VStr name; arg].
    All marshalling is done here in Gallina so that ocaml/driver.ml stays generic. *)
 From Coq Require Import ZArith List Bool String Ascii.
-From Verif Require Import PyStr Normalize NormalizeGen Util UtilGen Toc TocGen Footnote FootnoteGen.
+From Verif Require Import PyStr Normalize NormalizeGen Util UtilGen Toc TocGen Footnote FootnoteGen Cli CliGen.
 Import ListNotations.
 Open Scope Z_scope.
 
@@ -25,6 +25,12 @@ Fixpoint opt_all {A} (l : list (option A)) : option (list A) :=
   end.
 
 Definition vnat (n : nat) : pval := VInt (Z.of_nat n).
+
+(* the library is abstract in the CLI model: these instances just record the call *)
+Definition enc_cfg (c : config) : str :=
+  [(if c_escape c then 49 else 48); (if c_hardwrap c then 49 else 48)] ++ c_renderer c ++ [0] ++ join [1] (c_plugins c) ++ [0].
+Definition rec_text (c : config) (m : str) : str := [84] ++ enc_cfg c ++ m.
+Definition rec_file (c : config) (f : str) : option str := Some ([70] ++ enc_cfg c ++ f).
 
 Definition run_named (name : str) (arg : pval) : pval :=
   if is_name name "norm" then
@@ -66,6 +72,19 @@ Definition run_named (name : str) (arg : pval) : pval :=
       let '(ts, notes) := run_refs str str_eqb (fun k => existsb (str_eqb k) d) [] (strs hist) in
       VList [VList (map (fun t => match t with Some n => vnat n | None => VNone end) ts); vstrs notes;
              VList [VStr (fs_ref_id fn_S); VStr (fs_ref_href fn_S); VStr (fs_item_id fn_S); VStr (fs_item_back fn_S)]]
+    | _ => VErr "arg" end
+  else if is_name name "cli" then
+    match arg with
+    | VList [VList argv; stdin] =>
+      let strs := flat_map (fun v => match v with VStr s => [s] | _ => [] end) argv in
+      let sin := match stdin with VStr s => Some s | _ => None end in
+      match cli rec_text rec_file cli_decls cli_K strs sin with
+      | OStdout t => VList [VStr (z_of_string "stdout"); VStr t]
+      | OFile p t => VList [VStr (z_of_string "file"); VStr p; VStr t]
+      | OErrorExit t => VList [VStr (z_of_string "error"); VStr t]
+      | OVersion => VList [VStr (z_of_string "version")]
+      | OUsage => VList [VStr (z_of_string "usage")]
+      end
     | _ => VErr "arg" end
   else VErr "unknown function".
 
